@@ -73,8 +73,17 @@ TESTED_NOT_PROVED = [
     "by the harness on every case) through rule preparation, engine, pruning, gluing and _explicit_h (C04_in_results_engine_default); outside them "
     "(H2 / H+, hydrogens bonded to hydrogens, the explicit re-match path) the premise 'the prepared rule describes the pair' is validated per case "
     "(describesb, C04_identity_glue_any_rule) and the re-match path is covered by correspondence and oracle only",
-    "strategies comp / bt: refuted in general (C04_comp_bt_refuted, 2 known-finding keys); outside that class and the strict_cc_count guard region they are "
-    "covered by correspondence (raw matches enumerated by the model through C06's comp / bt) and the oracle only",
+    "strategies comp / bt: proved to regenerate when the substrate has fewer components than the pattern or the identity separates the pattern "
+    "components (bt also in the strict_cc_count guard region), refuted otherwise (C04_comp_bt_refuted, C04_comp_guard_refuted: 2 + 5 known-finding "
+    "keys) - but, like C06's comp_spec / bt_spec, only 'for every embed_threshold from some T0 on' (T0 = C06's comp_bound): that the default "
+    "threshold 5000 is large enough for a given input is not proved; the correspondence compares the raw matches under the default threshold "
+    "with the model's own enumeration when the graphs are small",
+    "the _explicit_h stage: the executable model visits the atoms of a hydrogen-transfer group in sorted order, the code in Python-set order; "
+    "the two facts the default-mode theorems rest on (the stage keeps the folded reaction; it does not raise) are proved for EVERY order "
+    "(C04_explicit_h_any_order_keeps_reaction, C04_any_match_explicit_h_total_any_order), the object-level theorems themselves are stated for the "
+    "sorted order; the observable of an ITS after the stage is insensitive to which hydrogen went to which recipient (C03 compares the wiring)",
+    "the implicit-mode theorems assume no_explicit_H (no hydrogen ATOM at all), which is stronger than 'no CENTRE hydrogen explicit'; the evidence "
+    "counts implicit-mode cases with hydrogen atoms (distribution.implicit_mode_with_H_atoms: 0 in the corpora)",
     "reads after a StopIteration of _explicit_h return the half-processed cached list (C04_stale_after_crash: proved about the model, replayed on "
     "the implementation; outside the precondition, documented)",
     "invariance under atom-map renumbering and SMILES rewriting: every case is run on rewritten inputs (C05 states the equivariance)",
@@ -794,7 +803,11 @@ def _oracle_plain(case):
     if o["guard"]:
         # documented strict_cc_count guard of the COMPONENT strategy (substrate has more components than the pattern):
         # the engine returns nothing by design (C06); `comp` promises matches only without spectator components
-        return [] if o["nraw"] == 0 else [dict(clause="comp-guard", detail="guard region but %d raw matches" % o["nraw"])]
+        if o["nraw"] == 0:
+            return [dict(clause="comp-guard-region", key=base + ":comp:guard",
+                         detail="strategy comp returns no match at all when the substrate has more connected components than the pattern "
+                                "(strict_cc_count, C06): the own template does not regenerate the reaction under comp")]
+        return [dict(clause="comp-guard", detail="guard region but %d raw matches" % o["nraw"])]
     if core and o["outside"]:
         # (ii) the centre cannot carry the change: expected, but only if that is the whole explanation
         if o["id_in_raw"] and _explained_by_outside(o):
@@ -880,6 +893,7 @@ def nontrivial(case, obs):
 
 def distribution(cases, obss):
     d = dict(mode={}, template={}, direction={}, strategy={}, variant={}, skipped=0, identity_in_raw=0, regenerated_graph_level=0,
+             implicit_mode_with_H_atoms=0,
              explicit_rematch_path=0, outside_centre_change=0, corpus={}, distinct_reactions=0, comp_guard_region=0,
              rule_describes_pair={"E": 0, "I": 0}, glued_is_pair_before_explicit_h={"E": 0, "I": 0}, default_okb={"E": 0, "I": 0})
     rx = set()
@@ -938,6 +952,8 @@ def distribution(cases, obss):
             d["glued_is_pair_before_explicit_h"][pre["mode"]] += 1 if (o[14] and o[14][0] == 1) else 0
             if len(o) >= 16:
                 d["default_okb"][pre["mode"]] += 1 if o[15] else 0
+        if pre.get("mode") == "I" and isinstance(o[0], list) and len(o[0]) >= 7 and not o[0][6]:
+            d["implicit_mode_with_H_atoms"] = d.get("implicit_mode_with_H_atoms", 0) + 1
         d["identity_in_raw"] += 1 if o[5] else 0
         d["regenerated_graph_level"] += 1 if o[8] else 0
         d["explicit_rematch_path"] += 1 if o[2] else 0
@@ -1144,7 +1160,7 @@ def gen_cases(tier, rng):
     return prepare_all(cases)
 
 
-LEVEL_TEXT = ("Machine-checked proof (Coq, 37 theorems) over an executable model of the round trip reaction -> template (ITS construction, reaction centre, "
+LEVEL_TEXT = ("Machine-checked proof (Coq, 44 theorems) over an executable model of the round trip reaction -> template (ITS construction, reaction centre, "
               "SynRule preparation, _invert_template) -> SynReactor OBJECT on the reaction's own reactants / products (options, pattern preparation, "
               "engine call through C06's model of find_subgraph_mappings, pruning by rule automorphisms through C11's model, _glue_graph, _explicit_h, "
               "its_list / smarts_list with their caches, reverse_reaction). Strategy ALL, both branches of the precondition: under C06's contract for "
@@ -1154,8 +1170,8 @@ LEVEL_TEXT = ("Machine-checked proof (Coq, 37 theorems) over an executable model
               "hydrogens fold back exactly; _explicit_h is proved never to raise on any ITS glued from the prepared rule when every template hydrogen has "
               "at most as many bonds before as after - a boolean evaluated on every case) - for the full ITS always and for the centre exactly when no atom outside "
               "the centre changes charge or hydrogen count, forwards and backwards. Strategies comp / bt: proved to regenerate whenever the substrate has "
-              "fewer components than the pattern or the identity separates the pattern components (bt also in the strict_cc_count guard region), and "
-              "REFUTED otherwise by a witness (known finding). Reads of one reactor object in any order and number equal fresh reads (and the exact stale "
+              "fewer components than the pattern or the identity separates the pattern components (bt also in the strict_cc_count guard region; for "
+              "every embed_threshold from C06's bound on), and REFUTED otherwise by witnesses (known findings: identity not separating; comp guard region). Reads of one reactor object in any order and number equal fresh reads (and the exact stale "
               "state after a StopIteration is described). The model is tied to the Python code by comparing every intermediate graph, the raw matches "
               "(enumerated by the model's verified enumerator under the same options), the kept mappings and the VALUE of every read of reactor objects "
               "on corpus reactions, their atom-map renumberings and SMILES rewritings on every run; the property itself is run end to end by an "
